@@ -146,13 +146,15 @@ PROPS['C28'] = {
     'level': 'proof',
     'level_text': 'Deductive proof (Verus/Z3), partial: the remote-manifest clause. The network fetch is given its permission as a precondition '
                   '(requires settings.verify.remote_manifest_fetch) and Verus proves the call site in the real Store::handle_remote_manifest satisfies it, for the '
-                  'feature fetch_remote_manifests on and off; with fetching disabled the result is Err, and RemoteManifestUrl(url) for a valid remote URL.',
+                  'feature fetch_remote_manifests on and off; with fetching disabled the result is Err, and RemoteManifestUrl(url) for a valid remote URL. '
+                  'OCSP clause: fetch_and_check_ocsp_response requires settings.verify.ocsp_fetch; proved for the real claim.rs check_ocsp_status (policy from settings) and the real '
+                  'crypto/cose check_ocsp_status (dispatch on the policy, which must not be FetchAllowed unless the setting is on).',
     'level_note': 'rule X5 (sync expansion of #[async_generic]) and X6 (cfg resolution) applied; OCSP and time-stamp request gating and "no request anywhere else" (whole-program frame) not covered.',
     'technique': TECH_V + '; effect-guard precondition on the network callee',
-    'parts': [V('verus:remote_gate', 'remote_gate')],
+    'parts': [V('verus:remote_gate', 'remote_gate'), V('verus:ocsp_gate', 'ocsp_gate')],
     'trusted_base': TB_VERUS + ['Store::fetch_remote_manifest is the only network access reachable from handle_remote_manifest'],
     'rule': 'obligation = one Verus function-level query over real text extracted from /repo on this run',
-    'not_covered': ['OCSP fetch gating', 'time-stamp authority requests', 'absence of requests in all other code paths (whole-program frame condition)', 'async flavour'],
+    'not_covered': ['OCSP fetch at signing time (Store::get_ocsp_response_ders, gated by builder.certificate_status_fetch)', 'time-stamp authority requests', 'absence of requests in all other code paths (whole-program frame condition)', 'async flavour'],
 }
 
 
